@@ -160,6 +160,8 @@ BH_BOUND = ("ONE call future; up to 3 schedule steps (then dropped), each = adva
             "max_wait in {None, 0, any <= 60 s}; max_concurrent_calls 1..=1000; semaphore answers per mode; inner future completes at any poll "
             "with any ok/err value or never")
 _bh_h = [
+    _bh("layer_builds_one_shared_semaphore", "layer(): one semaphore of max_concurrent_calls permits, shared by clones; configured max_wait is what a waiter is timed against",
+        "max_concurrent_calls 1..=100000, max_wait any whole ms <= 60 s", timeout=1500),
     _bh("one_call_any_availability", "per-caller protocol P1-P3, admission in the poll that grants the slot, exact timeout, transparency; semaphore grants at the solver's choice at every poll", BH_BOUND, timeout=2400),
 ]
 PROPS["C01"] = Prop(harnesses=_bh_h,
@@ -254,6 +256,8 @@ _rl_h = [
     _rlk("sliding_counter_step_limit4", "sliding counter: rotation only after a full bucket, grants counted, <= limit per bucket (f64 weights bit-exact)", RL_BOUND + "; limit <= 4, whole seconds", timeout=900),
     _rlk("sliding_counter_step_limit16", "same, limit <= 16", RL_BOUND + "; limit <= 16, whole seconds", timeout=2400, tiers=("thorough",)),
     _rlk("counter_idle_recovers", "sliding counter: empty after two idle periods", RL_BOUND, timeout=600),
+    _rlk("builder_reaches_window_state", "builder -> layer -> service: configured limit/period/timeout/window type are what the window state uses; clones share the state",
+         "limit <= 1000, any period/timeout (whole ms), all three window types", timeout=900),
     _rlk("acquire_protocol", "acquire(): for EVERY sequence of try_acquire answers: admitted iff its last try consumed a permit; at most two tries, one sleep of exactly the offered wait; second try only after the wait",
          "one acquire() future, <= 3 polls with arbitrary clock advances; try_acquire answers scripted (arbitrary Ok(ZERO)/Ok(wait)/Err)", timeout=1500, profile="service", mem_gb=24),
     _rlk("call_wiring", "RateLimiter::call: admitted -> inner exactly once, unchanged; rejected -> RateLimited, inner untouched; waiting -> not forwarded",
@@ -321,7 +325,8 @@ _t6 = lambda n, what, **kw: H("verif_kani::c06::" + n, TLM, what,
     models=("tokio",), profile="service", playback=False, mem_gb=34, timeout=2400, **kw)
 PROPS["C06"] = Prop(
     harnesses=[_t6("cancel_fixed_timeout", "cancellation on, fixed timeout"), _t6("cancel_per_request_timeout", "cancellation on, per-request timeout", tiers=("thorough",)),
-               _t6("no_cancel_fixed_timeout", "cancellation off: spawn + oneshot + select!; background call keeps running")],
+               _t6("no_cancel_fixed_timeout", "cancellation off: spawn + oneshot + select!; background call keeps running"),
+               _t6("builder_is_faithful", "builder -> layer -> service: configured timeout and cancellation mode are used")],
     functions=["tower_resilience_timelimiter::TimeLimiter::{new,poll_ready,call}", "TimeoutFn::get_timeout (FixedTimeout, DynamicTimeout)"],
     bounds="one call, 2 polls, timeout <= 60 s, latency <= 90 s or never",
     outside="several concurrent calls (they share no state: each call future owns its clone and its timer); that tokio's timer wakes the task AT the deadline is tokio's (the model lets the harness poll at any instant, so 'never pending at or after the deadline' is what is decided)",
